@@ -225,6 +225,9 @@ def run_case(case):
                 exp = _expected(flat, rows, cols, index, meta_index, colnames)
             except KeyError:
                 continue
+            except ValueError:
+                counters["expectation_not_constructible"] = counters.get("expectation_not_constructible", 0) + 1   # pandas refuses this set_index
+                continue
             fkey = (scheme, len(opts.get("partition_on") or []), tuple(s["t"] for s in prog["chain"]), term["t"],
                     "none" if index is None else ("false" if index is False else "named"), cols is None)
             try:
